@@ -85,15 +85,15 @@ type varModel struct {
 	// foreign assignment (X only): held = what the program assigned ("" none, "X2", "nil");
 	// displaced = the assignment overwrote a live mock; fresh = methods mocked since then (only
 	// those are judged: whether the earlier ones survive a foreign assignment is not stated)
-	held      string
+	held string
 	// cancelledBy: the epoch of a builder that mocked and reset the variable (its cancelled mocker, with
 	// its backup, is still cached there); reassigned: the program assigned since. A further Reset of
 	// that builder may or may not write the old backup again — the statement does not say
 	cancelledBy int
 	reassigned  bool
 	displaced   bool
-	partial   bool
-	fresh     map[string]bool
+	partial     bool
+	fresh       map[string]bool
 }
 
 var sink [][]byte
@@ -620,57 +620,64 @@ func Run(c *vk.Ctx) {
 	}
 	alpha, vars := alphabet(c.Thorough())
 	var idx int64
-	for _, real := range []bool{false, true} {
-		var rec func(prefix []Op) bool
-		rec = func(prefix []Op) bool {
-			for _, op := range alpha {
-				if c.Full() || c.Expired() {
-					return false
-				}
-				h := append(prefix[:len(prefix):len(prefix)], op)
-				if !wellFormed(h) {
-					continue
-				}
-				mine := c.Mine(idx)
-				idx++
-				if mine {
-					cs := Case{real, h, opsString(h)}
-					nb, _ := json.Marshal(map[string]interface{}{"__key": fmt.Sprintf("init_real=%v hist=[%s]", real, cs.Text), "initial_real_impl": real, "ops": h, "text": cs.Text})
-					c.Note(string(nb))
-					f, j, u := run(real, h, vars)
-					c.Res.Evaluations += int64(j)
-					c.Res.Unjudged += int64(u)
-					c.Res.Traces++
-					c.Res.States++
-					c.Res.Transitions += int64(len(h))
-					nm := 0
-					for _, o := range h {
-						if o.K < kGC {
-							nm++
-						}
-					}
-					if nm > 0 && len(h) > 1 {
-						c.Res.Nontrivial++
-					}
-					if idx%499 == 1 {
-						c.Sample(cs)
-					}
-					if f != "" {
-						cls := class(f)
-						min := minimize(real, h, vars, cls)
-						g, _, _ := run(real, min, vars)
-						c.Violate(fmt.Sprintf("init_real=%v hist=[%s] class=%s", real, opsString(min), class(g)), g, Case{real, min, opsString(min)})
-					}
-				}
-				if len(h) < depth {
-					if !rec(h) {
+	// shorter histories first (all of length 1, then all of length 2, ...): if the soft time budget of the thorough
+	// tier runs out, what is left unexplored is the tail of the deepest level, and the evidence says so
+	for level := 1; level <= depth; level++ {
+		for _, real := range []bool{false, true} {
+			var rec func(prefix []Op) bool
+			rec = func(prefix []Op) bool {
+				for _, op := range alpha {
+					if c.Full() || c.Expired() {
 						return false
 					}
+					h := append(prefix[:len(prefix):len(prefix)], op)
+					if !wellFormed(h) {
+						continue
+					}
+					if len(h) < level {
+						if !rec(h) {
+							return false
+						}
+						continue
+					}
+					mine := c.Mine(idx)
+					idx++
+					if mine {
+						cs := Case{real, h, opsString(h)}
+						nb, _ := json.Marshal(map[string]interface{}{"__key": fmt.Sprintf("init_real=%v hist=[%s]", real, cs.Text), "initial_real_impl": real, "ops": h, "text": cs.Text})
+						c.Note(string(nb))
+						f, j, u := run(real, h, vars)
+						c.Res.Evaluations += int64(j)
+						c.Res.Unjudged += int64(u)
+						c.Res.Traces++
+						c.Res.States++
+						c.Res.Transitions += int64(len(h))
+						nm := 0
+						for _, o := range h {
+							if o.K < kGC {
+								nm++
+							}
+						}
+						if nm > 0 && len(h) > 1 {
+							c.Res.Nontrivial++
+						}
+						if idx%499 == 1 {
+							c.Sample(cs)
+						}
+						if f != "" {
+							cls := class(f)
+							min := minimize(real, h, vars, cls)
+							g, _, _ := run(real, min, vars)
+							c.Violate(fmt.Sprintf("init_real=%v hist=[%s] class=%s", real, opsString(min), class(g)), g, Case{real, min, opsString(min)})
+						}
+					}
 				}
+				return true
 			}
-			return true
+			if rec(nil) {
+				c.Res.Extra["completed_levels"] = level
+			}
 		}
-		rec(nil)
 	}
 	// fixed histories outside the enumerated alphabet
 	for _, h := range fixedHistories {
